@@ -992,6 +992,11 @@ static void
 resync(World &w)
 {
 	sim_event("resync");
+	// a websocket that is being closed lingers for up to 100 ms waiting for the peer's close frame
+	// (closeaio in websocket.c): until then the old pipe still counts as the PAIR peer and a new
+	// connection is refused, so the topology is not what the pipe events of the other side suggest
+	if (w.tr == TR_WS && w.fuzzy)
+		sim_sleep_ms(150);
 	for (Node *n : w.nodes)
 		if (n->open)
 			for (size_t i = 0; i < n->eps.size(); i++)
